@@ -713,7 +713,7 @@ namespace Clipper2Lib {
   }
 
   template <typename T>
-  inline void RDP(const Path<T> path, std::size_t begin,
+  inline void RDP(const Path<T>& path, std::size_t begin,
     std::size_t end, double epsSqrd, std::vector<bool>& flags)
   {
     typename Path<T>::size_type idx = 0;
